@@ -63,6 +63,8 @@ func init() {
 			}
 			c.OKTrivial("avro.ReadFile", c.P.pos(s.fn.Pos()), "resolved")
 			ruleODMagic(c, s)
+			ruleODMeta(c, s)
+			ruleCPDrain(c, s)
 			ruleODSchema(c, s)
 			ruleCTAgree(c, s)
 			ruleODSync(c, s)
